@@ -3,8 +3,8 @@ from analysis.facts import norm
 from analysis.cfg import Cfg
 from analysis.flow import DefUse, ReachingDefs, backward, find_calls, callee_is, callee_ends, op_local, op_const, field_chain
 from analysis.nioabs import NioFacts, NioWalk
-from analysis.table import describe_val
-from rules.common import need
+from analysis.table import describe_val, switch_test
+from rules.common import need, inl
 
 BUF_READ = ("read", "recv", "recvfrom", "pread")
 BUF_WRITE = ("write", "send", "sendto", "pwrite")
@@ -27,10 +27,21 @@ def nio_bodies(f):
 _walk_cache = {}
 
 
+def unit(b):
+    """The wrapper as one unit: exit helpers, RAII guards and combinator closures spliced in."""
+    k = (b.facts.config, b.path, id(b.facts))
+    if k not in _unit_cache:
+        _unit_cache[k] = inl(b.facts, b)
+    return _unit_cache[k]
+
+
+_unit_cache = {}
+
+
 def walk(b):
     k = (b.facts.config, b.path, id(b.facts))
     if k not in _walk_cache:
-        nf = NioFacts(b)
+        nf = NioFacts(unit(b))
         w = NioWalk(nf)
         if nf.ok:
             w.run()
@@ -46,7 +57,7 @@ def _each(run, f, rid, names):
             run.missing(rid, "Nio%sSyscall::%s" % (nm.capitalize(), nm))
             continue
         run.fn(b)
-        yield nm, b
+        yield nm, unit(b)
 
 
 def top_binop(b, du, rd, op, at, depth=10):
@@ -315,25 +326,35 @@ def count_rule(run, f, rid, rid_suffix):
             run.ok(rid, b.npath + "/count", why)
         else:
             run.fail(rid, b.npath + "/count", b.loc(b.blocks[x]["term"]["line"]), "%s hands the kernel an element count that is not the length of the array it passes (%s): the kernel reads past (or short of) the array" % (nm, why))
-        # suffix: the Vec passed is filled from vec.iter().skip(index)
+        # suffix: the Vec passed is filled from vec.iter().skip(index)  (push loop or collect), where `index` is the one
+        # counter the skip count derives from -- identified by its definitions (initialised, then incremented), not its name
         pushes = [(y, tt) for (y, tt) in b.calls() if norm(tt.get("callee") or "") == "std::vec::Vec::push"]
         sk = [(y, tt) for (y, tt) in b.calls() if norm(tt.get("callee") or "") == "std::iter::Iterator::skip"]
         ok2 = False
-        if pushes and len(sk) == 1:
+        idx_l = []
+        if len(sk) == 1:
             ssl = backward(b, sk[0][1]["args"][1], du, at=(sk[0][0], "term"), through_calls="none")
-            idx_named = {b.name_of(l) for l in ssl.locals if not b.name_of(l).startswith("_")}
-            # index increments are guarded by a >= comparison of transferred vs length
-            idx_l = [l for l in ssl.locals if b.name_of(l) == "index"]
+            idx_l = [l for l in ssl.locals if l > b.argc and len(du.defs.get(l, [])) >= 2]
+            fills = bool(pushes) or any(any(y == sk[0][0] for (y, _t) in backward(b, tt["args"][0], du, at=(z, "term")).calls) for (z, tt) in b.calls() if norm(tt.get("callee") or "").rsplit("::", 1)[-1] in ("collect", "extend", "from_iter"))
+            accn = b.name_of(nf.acc) if nf.acc is not None else None
+
+            def on_complete_edge(db):
+                # the increment sits under an edge on which  X <= / < transferred  holds (however the test is spelled)
+                for blk in b.blocks:
+                    st = switch_test(b, du, blk["id"])
+                    if not st or st[0][0] != "cmp" or st[0][1] not in ("Lt", "Le") or st[1] == st[2] or blk["id"] == db:
+                        continue
+                    # X </<= transferred holds on st[1];  !(transferred </<= X), the same fact, holds on st[2]
+                    if (st[0][3] == ("local", accn) and cfg.dominates(st[1], db)) or (st[0][2] == ("local", accn) and cfg.dominates(st[2], db)):
+                        return True
+                return False
             guarded = True
             for l in idx_l:
                 for d in du.defs.get(l, []):
                     if d[2] == "assign" and op_const(d[3]["rhs"].get("a")) is None and d[3]["rhs"]["k"] == "use":
-                        db = d[0]
-                        # some dominating switch tests Ge/Gt of two locals
-                        dom_tests = [blk for blk in b.blocks if blk["term"]["k"] == "switch" and cfg.dominates(blk["id"], db) and blk["id"] != db]
-                        if not any(any(s["k"] == "assign" and s["rhs"]["k"] == "binop" and s["rhs"]["op"] in ("Ge", "Gt") for s in blk["stmts"]) for blk in dom_tests):
+                        if not on_complete_edge(d[0]):
                             guarded = False
-            ok2 = idx_named == {"index"} and guarded
+            ok2 = len(idx_l) == 1 and not ssl.params and not ssl.calls and fills and guarded
         # an iteration that moves on to the next caller element without entering the call loop must count the element it skips
         if ok2 and loop_calls:
             loops = cfg.natural_loops()
@@ -344,7 +365,7 @@ def count_rule(run, f, rid, rid_suffix):
                     inner_h = h
                 elif x in blocks and outer_h is None:
                     outer_h = (h, blocks)
-            idx_locals = [l for l in range(len(b.locals)) if b.name_of(l) == "index"]
+            idx_locals = list(idx_l)
             inc_blocks = {d[0] for l in idx_locals for d in du.defs.get(l, []) if d[2] == "assign" and op_const(d[3]["rhs"].get("a")) is None and d[0] in (outer_h[1] if outer_h else set())}
             if outer_h and inner_h is not None:
                 h, blocks = outer_h
